@@ -27,6 +27,7 @@ Definition pending (u : user) : option (bool * cid) :=
   match u with
   | USess _ (SLockCall i _) => Some (true, i)
   | UBr (BCall i _) => Some (false, i)
+  | UR4 (R4Call _ i _) => Some (false, i)
   | _ => None
   end.
 
@@ -36,6 +37,7 @@ Definition rest_pc (u : user) : pc :=
   | USess sc SLoop | USess sc SEnding => if (sc =? 0)%N then Idle else Holding sc
   | USess _ (SLockGot i _) | USess _ (SLockStored i) => Holding i
   | UBr (BHeld i _) | UBr (BRet i) => Holding i
+  | UR4 (R4Got _ i _) | UR4 (R4Body _ i) | UR4 (R4Wait _ i) | UR4 (R4Ret _ i) => Holding i
   | _ => Idle
   end.
 
@@ -80,7 +82,7 @@ Lemma user_step_cases u x th u' c :
   end.
 Proof.
   intros Hl Hs.
-  destruct u as [|sc p|p]; [rewrite user_step_free in Hs; discriminate| |].
+  destruct u as [|sc p|p|p]; [rewrite user_step_free in Hs; discriminate| | |].
   - (* RHP2 session *)
     destruct p as [|i g|i g|i| |]; destruct x; cbn [user_step] in Hs; try discriminate;
       cbn [link wf_user pending rest_pc] in Hl.
@@ -129,6 +131,27 @@ Proof.
     + inversion Hs; subst; clear Hs. cbn. repeat split; try discriminate; auto.
     + inversion Hs; subst; clear Hs. cbn. repeat split; try discriminate; auto.
     + inversion Hs; subst; clear Hs. cbn. repeat split; try discriminate; auto.
+  - (* RHP4 handler *)
+    destruct p as [|k i rv|k i rv|k i|k i|k i]; destruct x; cbn [user_step] in Hs; try discriminate;
+      cbn [link wf_user pending rest_pc] in Hl; destruct Hl as [_ Hl].
+    + (* R4Idle, R4Pre *)
+      inversion Hs; subst; clear Hs. cbn. repeat split; try discriminate; auto.
+    + (* R4Idle, R4Enter *)
+      inversion Hs; subst; clear Hs. cbn. repeat split; try discriminate; auto.
+      exists false. split; auto. discriminate.
+    + (* R4Call, R4LockReturn *)
+      unfold call_pc in Hl.
+      destruct (tpc th) eqn:Hpc; try discriminate; inversion Hs; subst; clear Hs; cbn.
+      * repeat split; try discriminate; auto.
+      * destruct Hl as [-> _]. repeat split; try discriminate; auto.
+    + (* R4Got, R4Check *)
+      destruct k, rv; inversion Hs; subst; clear Hs; cbn; repeat split; try discriminate; auto.
+    + (* R4Body, R4Run *)
+      inversion Hs; subst; clear Hs. destruct (r4_reads k && w)%bool; cbn; repeat split; try discriminate; auto.
+    + (* R4Wait, R4Renter *)
+      inversion Hs; subst; clear Hs. cbn. repeat split; try discriminate; auto.
+    + (* R4Ret, R4Defer *)
+      inversion Hs; subst; clear Hs. cbn. repeat split; try discriminate; auto.
 Qed.
 
 (** * The manager side of a pending Lock call *)
@@ -140,7 +163,7 @@ Definition owned_action (b : action) : Prop :=
   end.
 
 Lemma allowed_owned u b : u <> UFree -> allowed_base u b = true -> owned_action b.
-Proof. destruct u; [congruence| |]; intros _; destruct b; cbn; intros; try discriminate; exact I. Qed.
+Proof. destruct u; [congruence| | |]; intros _; destruct b; cbn; intros; try discriminate; exact I. Qed.
 
 Lemma owned_base_step s b s' th :
   Inv s' -> step s b = Some s' -> nth_error (ths s) (act_tid b) = Some th -> owned_action b ->
@@ -202,7 +225,7 @@ Lemma link_after_base s b s' u th th' :
   link th u -> link th' u.
 Proof.
   intros HI' Hs Hal Hn Hn' Hl.
-  destruct u as [|sc p|p] eqn:Eu; [exact I| |];
+  destruct u as [|sc p|p|p] eqn:Eu; [exact I| | |];
     (assert (Hnf : u <> UFree) by (rewrite Eu; discriminate); rewrite <- Eu in *;
      pose proof (allowed_owned u b Hnf Hal) as Ho;
      destruct (owned_base_step _ _ _ _ HI' Hs Hn Ho) as (th1 & Hn1 & Hrel);
@@ -304,7 +327,7 @@ Proof.
     destruct (user_step_cases _ _ _ _ _ (Hlk _ _ _ Hu Hth) Hus) as (Hnf & Hwf & Hcase).
     assert (Hlink' : forall th', link th' u' <->
               match pending u' with Some (nz, i) => call_pc nz i th' | None => tpc th' = rest_pc u' end).
-    { intro th'. destruct u'; [congruence| |]; cbn [link]; tauto. }
+    { intro th'. destruct u'; [congruence| | |]; cbn [link]; tauto. }
     destruct c as [|i d b|i]; cbn [apply_call] in Hc.
     + (* no call *)
       inversion Hc; subst s'; clear Hc. split; [|left; auto].
@@ -348,8 +371,9 @@ Proof.
   - cbn. rewrite repeat_length. auto.
   - intros t u th Hu Hth. cbn in Hth. apply nth_repeat_idle in Hth. subst th.
     apply nth_error_In in Hu. rewrite forallb_forall in Hall. specialize (Hall _ Hu).
-    destruct u as [|sc p|p]; [exact I| |].
+    destruct u as [|sc p|p|p]; [exact I| | |].
     + destruct p; try discriminate. cbn in Hall. apply N.eqb_eq in Hall. subst sc. cbn. auto.
+    + destruct p; try discriminate. cbn. auto.
     + destruct p; try discriminate. cbn. auto.
 Qed.
 
@@ -424,6 +448,7 @@ Definition user_holds (i : cid) (u : user) : Prop :=
   | USess sc SLoop | USess sc SEnding => sc = i /\ i <> 0%N
   | USess _ (SLockGot j _) | USess _ (SLockStored j) => j = i
   | UBr (BHeld j _) | UBr (BRet j) => j = i
+  | UR4 (R4Got _ j _) | UR4 (R4Body _ j) | UR4 (R4Wait _ j) | UR4 (R4Ret _ j) => j = i
   | _ => False
   end.
 
@@ -432,7 +457,7 @@ Definition user_holds (i : cid) (u : user) : Prop :=
 Definition user_rest (u : user) : Prop :=
   match u with
   | USess sc SLoop | USess sc SEnding => sc = 0%N
-  | USess _ SEnded | UBr BIdle => True
+  | USess _ SEnded | UBr BIdle | UR4 R4Idle => True
   | _ => False
   end.
 
@@ -442,11 +467,11 @@ Theorem user_holds_is_holder us t u th i :
 Proof.
   intros Hr Hu Hth. pose proof (ui_link _ (ureachable_uinv _ Hr) _ _ _ Hu Hth) as Hl.
   split; intros Hh.
-  - destruct u as [|sc p|p]; [contradiction| |]; destruct p; cbn in Hh; try contradiction;
+  - destruct u as [|sc p|p|p]; [contradiction| | |]; destruct p; cbn in Hh; try contradiction;
       cbn [link pending rest_pc wf_user] in Hl; destruct Hl as [Hwf Hl]; try (subst; exact Hl).
     + destruct Hh as [-> Hnz]. destruct (N.eqb_spec i 0); [contradiction|exact Hl].
     + destruct Hh as [-> Hnz]. destruct (N.eqb_spec i 0); [contradiction|exact Hl].
-  - destruct u as [|sc p|p]; [contradiction| |]; destruct p; cbn in Hh; try contradiction;
+  - destruct u as [|sc p|p|p]; [contradiction| | |]; destruct p; cbn in Hh; try contradiction;
       cbn [link pending rest_pc wf_user] in Hl; destruct Hl as [Hwf Hl]; try exact Hl;
       subst sc; exact Hl.
 Qed.
@@ -465,7 +490,7 @@ Proof.
   intros Hr Hu1 Hth1 Hu2 Hth2 H1 H2.
   assert (Hh : forall t u th, nth_error (uusers us) t = Some u -> nth_error (ths (ubase us)) t = Some th ->
                               sys_holds i u th -> holds i th).
-  { intros t u th Hu Hth Hs. destruct u as [|sc p|p]; [exact Hs| |];
+  { intros t u th Hu Hth Hs. destruct u as [|sc p|p|p]; [exact Hs| | |];
       left; apply (proj1 (user_holds_is_holder us t _ th i Hr Hu Hth)); exact Hs. }
   eapply (mutual_exclusion _ _ (ureachable_base _ Hr)); eauto.
 Qed.
@@ -552,7 +577,7 @@ Proof.
   intros t th Hth. pose proof (ureachable_uinv _ Hr) as [HI Hlen Hlk].
   assert (Hlt : (t < length (uusers us))%nat) by (rewrite Hlen; apply nth_error_Some; congruence).
   destruct (nth_error (uusers us) t) as [u|] eqn:Hu; [|apply nth_error_None in Hu; lia].
-  specialize (Hall _ _ _ Hu Hth). destruct u as [|sc p|p]; auto;
+  specialize (Hall _ _ _ Hu Hth). destruct u as [|sc p|p|p]; auto;
     apply (proj2 (user_holds_is_holder us t _ th 0%N Hr Hu Hth)); exact Hall.
 Qed.
 
@@ -602,11 +627,24 @@ Proof.
            | H : Bool.eqb _ _ = true |- _ => apply Bool.eqb_prop in H; subst
            end; auto.
 Qed.
+Lemma r4k_eqb_eq a b : r4k_eqb a b = true -> a = b.
+Proof. destruct a, b; cbn; intros H; try discriminate; auto. Qed.
+Lemma r4pc_eqb_eq p q : r4pc_eqb p q = true -> p = q.
+Proof.
+  destruct p, q; cbn; intros H; try discriminate; auto;
+    repeat match goal with
+           | H : (_ && _)%bool = true |- _ => apply andb_prop in H; destruct H
+           | H : (_ =? _)%N = true |- _ => apply N.eqb_eq in H; subst
+           | H : Bool.eqb _ _ = true |- _ => apply Bool.eqb_prop in H; subst
+           | H : r4k_eqb _ _ = true |- _ => apply r4k_eqb_eq in H; subst
+           end; auto.
+Qed.
 Lemma user_eqb_eq u v : user_eqb u v = true -> u = v.
 Proof.
   destruct u, v; cbn; intros H; try discriminate; auto.
   - apply andb_prop in H. destruct H as [H1 H2]. apply N.eqb_eq in H1. apply spc_eqb_eq in H2. subst; auto.
   - apply bpc_eqb_eq in H. subst; auto.
+  - apply r4pc_eqb_eq in H. subst; auto.
 Qed.
 Lemma usys_eqb_eq a b : usys_eqb a b = true -> a = b.
 Proof.
@@ -621,6 +659,7 @@ Proof.
            | H : (_ && _)%bool = true |- _ => apply andb_prop in H; destruct H
            | H : (_ =? _)%N = true |- _ => apply N.eqb_eq in H; subst
            | H : Bool.eqb _ _ = true |- _ => apply Bool.eqb_prop in H; subst
+           | H : r4k_eqb _ _ = true |- _ => apply r4k_eqb_eq in H; subst
            end; auto.
 Qed.
 Lemma uaction_eqb_eq a b : uaction_eqb a b = true -> a = b.
@@ -770,6 +809,11 @@ Definition user_weight (u : user) : Z :=
   | UBr (BCall _ _) => 8
   | UBr (BHeld _ _) => 6
   | UBr (BRet _) => 2
+  | UR4 (R4Call _ _ _) => 10
+  | UR4 (R4Got _ _ _) => 8
+  | UR4 (R4Body _ _) => 6
+  | UR4 (R4Wait _ _) => 4
+  | UR4 (R4Ret _ _) => 2
   | _ => 0
   end.
 
@@ -779,7 +823,7 @@ Fixpoint usum (l : list user) : Z :=
 Definition umeasure (us : usys) : Z := measure (ubase us) + usum (uusers us).
 
 Lemma user_weight_range u : 0 <= user_weight u <= 10.
-Proof. destruct u as [|sc p|p]; [cbn; lia| |]; destruct p; cbn; lia. Qed.
+Proof. destruct u as [|sc p|p|p]; [cbn; lia| | |]; destruct p; cbn; lia. Qed.
 
 Lemma usum_nonneg l : 0 <= usum l.
 Proof. induction l as [|u l IH]; cbn [usum]; [lia|]. pose proof (user_weight_range u). lia. Qed.
@@ -828,12 +872,15 @@ Lemma user_step_weight u x th u' c :
   else user_weight u' + dc <= user_weight u + 14.
 Proof.
   intros Hs.
-  destruct u as [|sc p|p]; [rewrite user_step_free in Hs; discriminate| |].
+  destruct u as [|sc p|p|p]; [rewrite user_step_free in Hs; discriminate| | |].
   - destruct p as [|i g|i g|i| |]; destruct x; cbn [user_step] in Hs; try discriminate;
       repeat (dmu Hs; try discriminate); inversion Hs; subst; clear Hs; cbn; try lia;
       try (destruct ok; cbn; lia).
   - destruct p as [|i h|i [|]|i]; destruct x; cbn [user_step] in Hs; try discriminate;
       repeat (dmu Hs; try discriminate); inversion Hs; subst; clear Hs; cbn; lia.
+  - destruct p as [|k i rv|k i rv|k i|k i|k i]; destruct x; cbn [user_step] in Hs; try discriminate;
+      repeat (dmu Hs; try discriminate); inversion Hs; subst; clear Hs; cbn; try lia;
+      destruct (r4_reads k && w)%bool; cbn; lia.
 Qed.
 
 Lemma umeasure_step us a us' :
@@ -872,8 +919,8 @@ Proof.
     - exists t. split.
       + destruct (nth_error (uusers s) t) eqn:E; try discriminate. apply nth_error_Some. congruence.
       + unfold uinternal_actions. apply in_or_app. right.
-        destruct x; cbn in Hi; try discriminate; cbn; auto 12.
-        destruct ok; auto 12. }
+        destruct x; cbn in Hi; try discriminate; try destruct ok; try destruct w; cbn;
+          repeat (first [left; reflexivity | right]). }
   destruct Ht as (t & Hlt & Hin).
   apply in_flat_map. exists t. split; [apply in_seq; lia|].
   apply in_flat_map. exists a. split; auto. rewrite Hs. left; auto.
